@@ -2,14 +2,17 @@
 from . import events_common as EC
 from .events_common import TRUSTED_BASE
 from . import c10 as R10
+from . import proc_common as PC
 
-COQ_FILES = EC.COQ_FILES + ["Registry.v", "RegistryProofs.v", "RespawnExec.v", "RespawnSound.v", "PropsRegistry.v"]
+COQ_FILES = EC.COQ_FILES + ["Registry.v", "RegistryProofs.v", "RespawnExec.v", "RespawnSound.v", "PropsRegistry.v"] + PC.COQ_FILES
 
 THEOREMS = ["C12_once_between_sub_and_unsub", "C12_once_between_sub_and_unsub_alive",
             "C12_subscription_follows_the_actor", "C12_sub_idempotent", "C12_unsub_by_value", "C12_broadcast_order",
             "C12_pointer_keys_refuted", "C12_oracle_holds_of_model",
             # "duplicate id ... published for every such occurrence": one event per losing Spawn / SpawnChild
-            "C10_duplicate_is_noop", "C10_duplicate_child_is_noop", "C10_respawn_oracle_holds_of_model"]
+            "C10_duplicate_is_noop", "C10_duplicate_child_is_noop", "C10_respawn_oracle_holds_of_model",
+            # "started, stopped, restarted, dead letter ... published for every such occurrence" (process layer)
+            "C12_lifecycle_events_published", "C12_expected_events_of_table", "C12_oracle_sound"]
 RULE = ("(seq) histories of Subscribe / Unsubscribe / BroadcastEvent / stop / respawn on a real engine over PID values of "
         "recording actors, each value available through 2 distinct *PID objects with equal address and id (object 0 = the "
         "PID Spawn returned); 'stop' poisons the actor and waits, 'respawn' spawns a new recording actor under the same "
@@ -74,4 +77,26 @@ class DuplicateIdEvents(R10.Respawn):
         return keep
 
 
-PARTS = [EC.Seq12(), EC.Conc12(), DuplicateIdEvents()]
+class LifecycleEvents(PC.ProcPart):
+    """the last sentence of C12 for the actor's own lifecycle events: on scripted single-actor scenarios of the real
+    engine the events the monitor saw (other than dead letters) are exactly the ones the delivery stream and the
+    script call for - Initialized/Started per incarnation whose handler returned, Restarted 1, 2, 3, ... per counted
+    crash, MaxRestartsExceeded + Stopped when the budget is spent, Stopped on stop/poison - in that order, dead letters
+    only after Stopped, Stopped iff unregistered at the end, one dead letter per payload sent and not delivered
+    (oracle_c12, judged on the implementation's observation alone; theorem C12_lifecycle_events_published)"""
+    prop = 12
+    name = "lifecycle_events"
+
+    def generate(self, rng, tier):
+        cases = PC.ProcPart.generate(self, rng, tier)
+        keep, nrand = [], 0
+        for c in cases:
+            if c["class"] in ("lifecycle_and_repeats", "repeated_crash_episodes"):
+                keep.append(c)
+            elif c["class"] == "random" and nrand < (100 if tier == "quick" else 2000):
+                nrand += 1
+                keep.append(c)
+        return keep
+
+
+PARTS = [EC.Seq12(), EC.Conc12(), DuplicateIdEvents(), LifecycleEvents()]
